@@ -150,7 +150,7 @@ def gen_case(run, i):
         # non-square pixels (a geographic grid with different spacing in longitude and latitude; a 2:1 line scanner): rows twice as
         # tall as the columns are wide in the source, or in the reference
         if rng.random() < 0.5:
-            src = rasters.Grid(src.x0, src.ytop, src.px, src.py * 2, src.w, max(2, src.h // 2), src.unit)
+            src = rasters.Grid(src.x0, src.ytop, src.px, src.py * 2, src.w, max(1, src.h // 2), src.unit)
         else:
             ref = rasters.Grid(ref.x0, ref.ytop, ref.px, ref.py * 2, ref.w, ref.h // 2 + 1, ref.unit)
     overlap = rng.choice([(0, 0), (0, 0), (1, 1), (2, 1), (3, 3), (1, 4), (5, 4)])
